@@ -61,7 +61,7 @@ def make_plan(tape, prop):
     if not outs and not tape.chance(1, 6):
         outs = ["--python_out"]
     plan["outs"] = outs
-    plan["opt"] = tape.weighted([20, 1, 1, 1, 1, 1, 1, 1, 1, 1, 1])
+    plan["opt"] = tape.weighted([20, 1, 1, 1, 1, 1, 1, 1, 1, 1, 1, 1, 1, 1, 1])
     plan["io"] = tape.weighted([14, 1, 1, 1, 1])      # none / read EIO / write ENOSPC / torn close / outdir vanishes
     plan["io_at"] = tape.draw(8)
     return plan
@@ -171,6 +171,16 @@ class CompRun(object):
             all_prophy_text = False
         elif opt == 10:
             inputs = [main, main]
+        elif opt == 11:
+            argv += ["-S", main]                 # isar supplement outside sack mode
+            all_prophy_text = False
+        elif opt == 12:
+            inputs = ["/w/out"]                  # a directory where a file is expected
+        elif opt == 13:
+            argv += ["--python_out", "/w/nodir"]
+        elif opt == 14:
+            argv = ["--isar", "--sack"] + argv   # mutually exclusive front-ends
+            all_prophy_text = False
         if plan["patch"] is not None:
             fs.put("/w/p.patch", plan["patch"])
             argv += ["--patch", "/w/p.patch"]
